@@ -242,8 +242,8 @@ pub fn gen_set(ch: &mut Chooser) -> JSet {
                         let typ = if ch.chance(1, 8) { v } else { ch.below(nvars) };
                         let (o, s) = match ch.below(4) {
                             0 => (*ch.pick(&[0usize, 8, 16, 32, 64, 128, 160, 256]), *ch.pick(&[8usize, 16, 32, 64, 96, 128, 160, 256])),
-                            1 => (0, *ch.pick(&[1usize, 8, 160, 256])),
-                            _ => (ch.below(257), ch.range(1, 256)),
+                            1 => (0, *ch.pick(&[1usize, 8, 160, 256, 0])),
+                            _ => (ch.below(257), if ch.chance(1, 12) { 0 } else { ch.range(1, 256) }),
                         };
                         (typ, o, s)
                     })
